@@ -306,12 +306,16 @@ HASH_REVIEWED = {
     ("process::processors::collect_globals::CollectGlobalsProcessor::iter_globals", "iter"): "names to avoid: set membership",
     ("process::processors::collect_globals::CollectGlobalsProcessor::into_globals", "into_iter"): "names to avoid: chained into a Vec that only feeds `contains`/is sorted by the caller",
     ("rules::verify_no_rule_properties", "iter"): "picks any offending key for the error message; an error is returned whatever the order",
-    ("<rules::rename_variables::rename_processor::RenameProcessor as process::scope_visitor::Scope>::pop", "into_values"): "released names are appended to the reuse pool which is sorted right after (checked: sort call follows)",
     ("rules::remove_call_match::RemoveFunctionCallProcessor::extract_reserved_globals", "drain"): "ORDER REACHES THE OUTPUT (local a, b = x, y); deterministic only while at most one global is ever reserved: side condition checked below",
     ("cli::utils::file_watcher::FileWatcher::process_events", "iter"): "looks up a rename pair among pending events; pairs are unique by cookie",
 }
 # Reviewed per container: iterations over these fields *inside the owner's own methods* (whatever the method is called after a
 # refactoring).  The reason must hold for every use the owner makes of the order.
+SLOT_REVIEWED_BY_ROLE = {
+    # (owner, role in c09._rp_layout): the scope dictionaries of the renamer; the only order-sensitive consumer is the reuse pool, whose
+    # independence from the iteration order is decided by evaluation (C11.order pop|sorted-after-extend / C09.pool)
+    ("rules::rename_variables::rename_processor::RenameProcessor", "stack"): "popped scope dictionary feeds the reuse pool; pool order independence is decided by evaluation over all insertion orders",
+}
 SLOT_REVIEWED = {
     ("frontend::worker_tree::WorkerTree", "node_map"): "path -> node index; iterated to find the nodes under a path prefix, each found node is restarted independently (idempotent, no output depends on the order)",
     ("frontend::worker_tree::WorkerTree", "external_dependencies"): "file -> set of dependent nodes; iterated to restart dependents / list watched files: set semantics",
@@ -345,9 +349,29 @@ def order(R, ctx):
                     fa_ = an.fa(f["path"]) if crate.fns.get(f["path"]) is f else None
                     slots = {o for o in (fa_.origins(c["args"][0]) if fa_ else ()) if o[0] != "#param"}
                     owner = f.get("self_tys", "").split("<")[0]
+                    if not slots and fa_ is not None:
+                        # the container is a parameter of a helper: look through to what its callers pass
+                        pidx = {o[1] for o in fa_.origins(c["args"][0]) if o[0] == "#param"}
+                        for g in crate.fn_list:
+                            if not thir.body_of(g) or g is f:
+                                continue
+                            ga = None
+                            for cc in thir.calls(g):
+                                if crate.fn(callee_of(cc) or "") is f:
+                                    ga = ga or (an.fa(g["path"]) if crate.fns.get(g["path"]) is g else None)
+                                    for i in pidx:
+                                        if ga is not None and i < len(cc["args"]):
+                                            slots |= {o for o in ga.origins(cc["args"][i]) if o[0] != "#param"}
                     for sl in slots:
                         if sl in SLOT_REVIEWED and sl[0] == owner:
                             why = SLOT_REVIEWED[sl]
+                    if why is None and crate is ctx.lib:
+                        from . import c09 as _c09
+                        roles = _c09._rp_layout(ctx.lib)
+                        for sl in slots:
+                            for (own, role), reason in SLOT_REVIEWED_BY_ROLE.items():
+                                if sl == (own, roles.get(role)) and owner.startswith(own):
+                                    why = reason
                 R.ob(rid, "%s|%s" % key, why is not None, ctx.where(f, c.get("ln")),
                      ("reviewed: " + why) if why is not None else
                      "unreviewed iteration over an unordered container (%s): if its order reaches an output, two runs can differ" % det)
@@ -368,12 +392,9 @@ def order(R, ctx):
             (len(single) == 1 and not arrays or (not single and len(arrays) == 1))
         R.ob(rid, "reserve_globals|at-most-one|%s" % norm_path(f["path"]), ok, ctx.where(f),
              "yields at most one global name" if ok else "may yield several names: the order of `local a, b = x, y` emitted by extract_reserved_globals then depends on hash order")
-    # RenameProcessor::pop sorts after extend
-    f = lib.fn("<rules::rename_variables::rename_processor::RenameProcessor as process::scope_visitor::Scope>::pop")
-    if R.require(rid, "pop|anchor", f is not None, "", "not found"):
-        names = [c.get("fname") for c in thir.walk(thir.body_of(f)) if c.get("k") == "Call"]
-        ok = "extend" in names and any((x or "").startswith("sort") for x in names[names.index("extend"):])
-        R.ob(rid, "pop|sorted-after-extend", ok, ctx.where(f), "reuse pool sorted after the unordered extend: %s" % ok)
+    # RenameProcessor::pop: order independence is decided semantically (all insertion orders of the popped map give the same pool)
+    from . import c09
+    c09.pool(R, ctx, rid_override=rid, only=("pop|sorted-after-extend",))
 
 
 def outdir(R, ctx):
